@@ -8,7 +8,7 @@
     values), every combination of options, every grace period and interval, every fault plan and
     cancellation point, every clock. [file s k] is the value of the terminal key k.
     [jt o clk s0 k] = deleting k is justified at one of the readings: exists i, justified o (clk i) s0 k. *)
-From CM Require Import Lib.Str Lib.CleanSyntax Gen.Consts Clean.Model Clean.Proofs Clean.Prog Clean.Check Clean.SpecProofs Clean.Concurrent Clean.Interfere Clean.Effective Clean.EffectiveCerts Clean.Kill Clean.InterfereSeq Clean.ConcurrentKill Clean.ConcurrentForeign.
+From CM Require Import Lib.Str Lib.CleanSyntax Gen.Consts Clean.Model Clean.Proofs Clean.Prog Clean.Check Clean.SpecProofs Clean.Concurrent Clean.Interfere Clean.Effective Clean.EffectiveCerts Clean.Kill Clean.InterfereSeq Clean.ConcurrentKill Clean.ConcurrentForeign Clean.Final.
 From Coq Require Import String Ascii.
 Open Scope Z_scope.
 
@@ -429,6 +429,119 @@ Theorem C18_every_schedule_live_assets_untouched : forall s0 base suf v c thr0,
   lookup (ks_store (kstepsf (KS s0 None thr0) sched)) (base ++ suf) = lookup s0 (base ++ suf).
 Proof. exact live_all_schedules. Qed.
 Print Assumptions C18_every_schedule_live_assets_untouched.
+
+(** ** FINAL ROUND: clauses the monitor checks on the implementation, or that were added for seeded changes, as theorems
+    about the model (Clean/Final.v) *)
+
+(** "does nothing if a cleaning was recorded more recently than the interval" -- in particular when the record is dated in the
+    FUTURE (clock skew between instances): at every reading, now - recorded < interval => storage untouched, no work *)
+Theorem C18_record_within_interval_or_future_skips : forall e o clk s0 v c ts i0, 0 < interval o ->
+  file s0 spec_last_clean = Some (v, c) -> as_clean c = Some (ts, i0) ->
+  (forall i, clk i - ts < interval o) ->
+  sto (snd (clean e o clk s0)) = s0 /\ has_kind does_work (rev (lg (snd (clean e o clk s0)))) = false.
+Proof. exact recorded_within_interval_or_future_skips. Qed.
+Print Assumptions C18_record_within_interval_or_future_skips.
+Corollary C18_future_record_skips : forall e o clk s0 v c ts i0, 0 < interval o ->
+  file s0 spec_last_clean = Some (v, c) -> as_clean c = Some (ts, i0) -> (forall i, clk i <= ts) ->
+  sto (snd (clean e o clk s0)) = s0 /\ has_kind does_work (rev (lg (snd (clean e o clk s0)))) = false.
+Proof. exact future_record_skips. Qed.
+Print Assumptions C18_future_record_skips.
+
+(** staples: NextUpdate ALONE decides -- whatever else the bytes read as (the identity of the value, a certificate, a record;
+    status, ThisUpdate / midpoint, an embedded responder certificate are not part of the reading): not past NextUpdate at any
+    reading => kept with its value under every fault plan; past it at every reading, or unparseable => gone in a fault-free run *)
+Theorem C18_staple_fate_is_next_update : forall e o clk s0 a v ac ast acl, child spec_ocsp a ->
+  file s0 a = Some (v, Cls ac ast acl) ->
+  (forall nu, ast = Some nu -> (forall i, clk i <= nu) ->
+     file (sto (snd (clean e o clk s0))) a = file s0 a) /\
+  (no_faults e -> do_ocsp o = true -> interval o <= 0 -> notfile s0 spec_ocsp ->
+   (ast = None \/ exists nu, ast = Some nu /\ forall i, nu < clk i) ->
+   lookup (sto (snd (clean e o clk s0))) a = None).
+Proof. exact staple_fate_is_next_update. Qed.
+Print Assumptions C18_staple_fate_is_next_update.
+
+(** certificates: the NotAfter of the certificate the file reads as (its FIRST PEM block -- the leaf, as certmagic stores
+    bundles) alone decides, in terms of the X.509 field itself: not past it by more than the grace period at any reading =>
+    X.crt, X.key, X.json keep their values under every fault plan, whatever else the file holds; past it by the grace period and
+    a second at every reading => gone in a fault-free run *)
+Theorem C18_cert_fate_is_not_after : forall e o clk s0 base v na ast acl,
+  site_assetb (base ++ spec_ext_crt) = true ->
+  file s0 (base ++ spec_ext_crt) = Some (v, Cls (Some na) ast acl) ->
+  ((forall i, clk i - na <= grace o) ->
+   forall suf, In suf asset_exts -> file (sto (snd (clean e o clk s0))) (base ++ suf) = file s0 (base ++ suf)) /\
+  (forall ik sk, no_faults e -> do_certs o = true -> interval o <= 0 -> crt_wf s0 ->
+   notfile s0 spec_certs -> child spec_certs ik -> child ik sk -> notfile s0 ik -> notfile s0 sk ->
+   child sk (base ++ spec_ext_crt) ->
+   (forall i, grace o + second <= clk i - na) ->
+   forall suf, In suf asset_exts -> lookup (sto (snd (clean e o clk s0))) (base ++ suf) = None).
+Proof. exact cert_fate_is_not_after. Qed.
+Print Assumptions C18_cert_fate_is_not_after.
+
+(** a Load error is not a reason to delete: against ANY world, every Delete of a cleaning comes after a SUCCESSFUL Load of the
+    key that decided it (the staple itself; X.crt for X.crt, X.key, X.json: [related]) -- or is the Delete of a folder listed
+    empty and Stat'ed as a folder *)
+Theorem C18_deletes_follow_successful_loads : forall o (W : Type) (wexec : act -> W -> resp * W) w,
+  let h := fst (wrun W wexec (clean_locked_prog o) w []) in
+  forall k x, In (ADelete k, x) h ->
+  (exists a v c, In (ALoad a, XLoad (LOk v c)) h /\ In k (related a)) \/ In (AStat k, XStat StatDir) h.
+Proof. exact deletes_follow_successful_loads. Qed.
+Print Assumptions C18_deletes_follow_successful_loads.
+
+(** ... and on the storage: a key directly in ocsp/ that is not a file (a directory: Load fails; or nothing) keeps everything
+    below it, under every fault plan *)
+Theorem C18_not_a_file_under_ocsp_kept : forall e o clk s0 a k, child spec_ocsp a -> file s0 a = None ->
+  covers a k = true -> file (sto (snd (clean e o clk s0))) k = file s0 k.
+Proof. exact not_a_file_under_ocsp_kept. Qed.
+Print Assumptions C18_not_a_file_under_ocsp_kept.
+
+(** the monitor under interference, as far as the frame theorems reach: on the model's own observation of a cleaning with any
+    foreign operations ([model_case_i]) the lock discipline holds, and the difference clause [diff_ok_f] holds for every key the
+    two frame theorems speak about *)
+Theorem C18_monitor_lock_discipline_under_interference : forall e fs o clk t0 t1 s0 t,
+  under_lock None (lock_trace (model_case_i e fs o clk t0 t1 s0 t)) = true.
+Proof. exact interference_lock_discipline. Qed.
+Print Assumptions C18_monitor_lock_discipline_under_interference.
+Theorem C18_monitor_sound_other_keys_under_interference : forall e fs o clk t0 t1 s0 t k,
+  has_prefix ocsp_pfx k = false -> has_prefix certs_pfx k = false -> k <> spec_last_clean ->
+  (forall i f, In (i, f) fs -> touches k f = false) ->
+  diff_ok_f (model_case_i e fs o clk t0 t1 s0 t) (s0f (model_case_i e fs o clk t0 t1 s0 t)) k = true.
+Proof. exact monitor_sound_other_keys. Qed.
+Print Assumptions C18_monitor_sound_other_keys_under_interference.
+Theorem C18_monitor_sound_live_assets_under_interference : forall e fs o clk t0 t1 s0 t base suf v c,
+  site_assetb (base ++ spec_ext_crt) = true -> In suf asset_exts ->
+  lookup s0 (base ++ spec_ext_crt) = Some (File v c) ->
+  (forall i, spec_expired (clk i) (grace o) c = false) ->
+  (forall i f, In (i, f) fs ->
+     covers (fkey f) (base ++ spec_ext_crt) = false /\ covers (fkey f) (base ++ suf) = false) ->
+  diff_ok_f (model_case_i e fs o clk t0 t1 s0 t) (s0f (model_case_i e fs o clk t0 t1 s0 t)) (base ++ suf) = true.
+Proof. exact monitor_sound_live_assets. Qed.
+Print Assumptions C18_monitor_sound_live_assets_under_interference.
+
+(** the monitor on a KILLED run (the clauses added with the kill: expiry event in [lock_trace], exemption in [runs_ok], replay of
+    the first n calls): the observation of a cleaner that dies when its call n begins, inside the locked part -- the first n calls
+    of the model's run under [with_kill e n], the storage it leaves -- satisfies the WHOLE monitor, for every clock in the bracket *)
+Theorem C18_killed_run_satisfies_monitor : forall e n o clk t0 t1 s0 t, (forall i, t0 <= clk i <= t1) ->
+  let log := rev (lg (snd (clean (with_kill e n) o clk s0))) in
+  (1 <= n < List.length log)%nat -> (exists k, hd_error log = Some (Ev KLock k true)) ->
+  spec_ok (killed_case e n o clk t0 t1 s0 t) = true.
+Proof. intros e n o clk t0 t1 s0 t H log. exact (killed_satisfies_spec e n o clk t0 t1 s0 t H). Qed.
+Print Assumptions C18_killed_run_satisfies_monitor.
+Theorem C18_killed_run_replays : forall e n o now s0 t, kill_at e = None ->
+  let st' := snd (clean (with_kill e n) o (fun _ => now) s0) in
+  let c := Case (lfe e) s0 [RunRec t o (faults e) (efaults e) (cancel_at e) now now 9%N [] (pfaults e) (Some n)]
+                (map (TEv t) (firstn n (rev (lg st')))) (sto st') in
+  replay c (c_runs c) s0 = Some (sto st').
+Proof. exact model_ok_refl_killed. Qed.
+Print Assumptions C18_killed_run_replays.
+
+(** ... and over the history the harness produces for every kill -- the dead cleaner's calls, the expiry of its lock, then the
+    cleaning that follows on the storage it left: the lock discipline of the monitor holds *)
+Theorem C18_killed_then_next_lock_discipline : forall e1 n o1 clk1 e2 o2 clk2 a0 a1 b0 b1 s0,
+  let log1 := rev (lg (snd (clean (with_kill e1 n) o1 clk1 s0))) in
+  (1 <= n < List.length log1)%nat -> (exists k, hd_error log1 = Some (Ev KLock k true)) ->
+  under_lock None (lock_trace (killed_then_next_case e1 n o1 clk1 e2 o2 clk2 a0 a1 b0 b1 s0)) = true.
+Proof. intros e1 n o1 clk1 e2 o2 clk2 a0 a1 b0 b1 s0 log1. exact (killed_then_next_lock_discipline e1 n o1 clk1 e2 o2 clk2 a0 a1 b0 b1 s0). Qed.
+Print Assumptions C18_killed_then_next_lock_discipline.
 
 (** ** who cleans, read from the source on every run: nothing inside the package calls CleanStorage (there is no
     timer path in certmagic itself -- [Cache.maintainAssets] renews and staples only; the application, e.g. Caddy's
@@ -939,3 +1052,50 @@ Example ex_past_not_after :
   let c := crt (T - 30 * day + 500000000) in
   spec_expired T (30 * day) c = false /\ spec_expired (T + second) (30 * day) c = true.
 Proof. vm_compute. split; reflexivity. Qed.
+
+(** final round: satisfiable hypotheses *)
+Example ex_future_record : (* the record of ex_store is dated T - 2 d; a cleaner whose clock shows T - 3 d *)
+  sto (snd (clean ex_env ex_opts (at_ (T - 3 * day)) ex_store)) = ex_store.
+Proof.
+  apply (C18_future_record_skips ex_env ex_opts (at_ (T - 3 * day)) ex_store 15
+           (Cls None None (Some (T - 2 * day, s2k "other"))) (T - 2 * day) (s2k "other")).
+  - reflexivity.
+  - reflexivity.
+  - reflexivity.
+  - intros i. vm_compute. discriminate.
+Qed.
+Example ex_staple_fate :
+  file (sto (snd (clean ex_env ex_opts_ni (at_ T) ex_store))) (s2k "ocsp/a-fresh") = file ex_store (s2k "ocsp/a-fresh") /\
+  lookup (sto (snd (clean ex_env ex_opts_ni (at_ T) ex_store))) (s2k "ocsp/a-stale") = None.
+Proof.
+  split.
+  - apply (proj1 (C18_staple_fate_is_next_update ex_env ex_opts_ni (at_ T) ex_store (s2k "ocsp/a-fresh") 10 None (Some (T + day)) None
+                    ltac:(exists (s2k "a-fresh"); split; reflexivity) eq_refl) (T + day) eq_refl).
+    intros i. vm_compute. discriminate.
+  - apply (proj2 (C18_staple_fate_is_next_update ex_env ex_opts_ni (at_ T) ex_store (s2k "ocsp/a-stale") 11 None (Some (T - day)) None
+                    ltac:(exists (s2k "a-stale"); split; reflexivity) eq_refl)).
+    + repeat split.
+    + reflexivity.
+    + vm_compute. discriminate.
+    + intros v c. vm_compute. discriminate.
+    + right. exists (T - day). split; [reflexivity | intros i; reflexivity].
+Qed.
+Example ex_cert_fate_hyps :
+  let base := s2k "certificates/iss/live.example/live.example" in
+  site_assetb (base ++ spec_ext_crt) = true /\
+  file ex_store (base ++ spec_ext_crt) = Some (0, Cls (Some (T + 30 * day)) None None) /\
+  (forall i, at_ T i - (T + 30 * day) <= grace ex_opts) /\
+  file (sto (snd (clean ex_env ex_opts (at_ T) ex_store))) (base ++ spec_ext_key) = file ex_store (base ++ spec_ext_key).
+Proof. split; [reflexivity|]. split; [reflexivity|]. split; [intros i; vm_compute; discriminate | vm_compute; reflexivity]. Qed.
+Definition ex_ocsp_dir_store : store :=
+  [ (s2k "ocsp/d-1/inner", File 1 (stp (T - day))); (s2k "ocsp/a-stale", File 2 (stp (T - day))) ].
+Example ex_not_a_file_kept :
+  child spec_ocsp (s2k "ocsp/d-1") /\ file ex_ocsp_dir_store (s2k "ocsp/d-1") = None /\
+  covers (s2k "ocsp/d-1") (s2k "ocsp/d-1/inner") = true /\
+  map fst (sto (snd (clean ex_env ex_opts_ni (at_ T) ex_ocsp_dir_store))) = [spec_last_clean; s2k "ocsp/d-1/inner"].
+Proof. split; [exists (s2k "d-1"); split; reflexivity|]. vm_compute. repeat split; reflexivity. Qed.
+Example ex_killed_monitor_hyps :
+  let log := rev (lg (snd (clean (with_kill ex_env 12) ex_opts_ni (at_ T) ex_store2))) in
+  (1 <= 12 < List.length log)%nat /\ hd_error log = Some (Ev KLock spec_lock true) /\
+  spec_ok (killed_case ex_env 12 ex_opts_ni (at_ T) T T ex_store2 0) = true.
+Proof. vm_compute. repeat split; try reflexivity; apply Nat.leb_le; reflexivity. Qed.
